@@ -42,7 +42,7 @@ m = {
     ],
     'checks': checks,
     'not_applicable': na,
-    'notes': 'See DESIGN.md. exit 2 from a check means infrastructure problem or undecided proof, never a verdict.',
+    'notes': 'See DESIGN.md (Part I = as built) and README.md. exit 2 from a check means infrastructure problem or undecided proof, never a verdict. Known findings: known_findings.json (F1 fixed in /repo by fb523b2; F2, F3, F4 in the pinned cipher dependency: printed as KNOWN-FINDING lines by the C11, C17, C13 checks). Seeded changes and what each check reported against them: seeded/.',
 }
 json.dump(m, open(os.path.join(VERIF, 'MANIFEST.json'), 'w'), indent=1)
 print('checks:', [c['property_id'] for c in checks], 'not_applicable:', [x['property_id'] for x in na])
